@@ -99,7 +99,7 @@ theorem testPassConstraint_safe (p : PassT) (hp : passOK p = true) (c : Ctx) (s0
         · obtain ⟨cur', hrun, _⟩ := codeOK_run h1 hk
           have hjo : JO (c.resetMap (((Array.replicate (MAX_SLOTS + 2) none).setIfInBounds 0 (c.seg.get s0).prev).setIfInBounds 1 (some s0)) 1 0) l none :=
             JO.mk' (show Linked c.seg l from hl) (show Clean c.seg l from hc) (.inl rfl) (show HwOK c.highwater l from hh) (show Alloc c.seg l from hal)
-          refine runConstraint_safe k _ 1 hjo (by simp [Ctx.resetMap, MAX_SLOTS]) (by simp [Ctx.resetMap]) (i := s0) ?_ hs0 hrun hw
+          refine runConstraint_safe k _ 1 hjo (by simp [Ctx.resetMap, MAX_SLOTS]) (by simp [Ctx.resetMap]) (mkCode_data hk) (i := s0) ?_ hs0 hrun hw
           simp [Ctx.resetMap, MAX_SLOTS]
       · cases e
 
@@ -152,8 +152,8 @@ theorem fontOK_pass {font : Font} (h : fontOK font = true) (k : Nat) : passOK (f
     decide +kernel
 
 /-- **The pipeline, every text, every font whose code passed the loader's cursor tests**: whatever error the model reports, it is
-neither a write through a null cursor (`is->setGlyph`, `is->setAttr`, `is->before/after` with `is == NULL`) nor a write outside the slot map
-(`*map = …` with `map` outside `m_slot_map`). -/
+neither a write through a null cursor (`is->setGlyph`, `is->setAttr`, `is->before/after` with `is == NULL`), nor a write outside the slot map
+(`*map = …` with `map` outside `m_slot_map`), nor an operand read outside the code's data area. -/
 theorem shape_noNullCursor (font : Font) (hf : fontOK font = true) (text : List Nat) (fuel : Nat) (dir : Nat) {w : String}
     (e : shape font text fuel dir = .error w) : ¬ engineFault w := by
   unfold shape at e
